@@ -1,11 +1,83 @@
 import Driver.Wire
+import Sio.Model.Simple
 open Lean (Json)
 namespace Sio.KSimple
 open Sio.Wire
+open Sio.Simple
 
-/-- stub: replaced by the kernel's line-protocol handler -/
-def step (_ : Unit) (_ : Json) : Except String (Unit × Json) := throw "kernel not implemented"
+/-
+  Line protocol of `siodriver simple`.
 
-def main : IO Unit := lineLoop () step
+  in : {"variant": "threads" | "asyncio", "sched": [token, …]}
+       tokens: "P" producer · "C" consumer (client.emit/call succeeds) · "Cf" consumer (client.emit/call
+       raises SocketIOError) · "T" timeout fires · "Kc" / "Kd" / "Kf" connection-handler thread
+       (connect / disconnect / __disconnect_final) · "Sr" start receive() · "St" start
+       receive(timeout) · "Se" start emit()/call()
+  out: {"trace": [[status, pc, nlog, producerMid, handlerMid], …]   one entry per token,
+        "log":   [{"o": outcome, "pc": …, "buf": […], "arrived": n, "returned": n, "signalled": n,
+                   "seen": n, "ended": b, "cev": b, "conn": b, "woken": b}, …],
+        "returned": […], "arrived": n, "buf": […]}
+-/
+
+def choiceOfToken (t : String) : Except String Choice :=
+  if t == "P" then pure .prod
+  else if t == "C" then pure (.cons true)
+  else if t == "Cf" then pure (.cons false)
+  else if t == "T" then pure .timeout
+  else if t == "Kc" then pure (.conn .connect)
+  else if t == "Kd" then pure (.conn .disconnect)
+  else if t == "Kf" then pure (.conn .final)
+  else if t == "Sr" then pure (.start (.recv false))
+  else if t == "St" then pure (.start (.recv true))
+  else if t == "Se" then pure (.start .send)
+  else throw s!"bad token {t}"
+
+def pcName : CPc → String
+  | .idle => "idle" | .r0 => "r0" | .r1 => "r1" | .r1w => "r1w" | .r2 => "r2" | .r3 => "r3"
+  | .r3w => "r3w" | .r4 => "r4" | .r5 => "r5" | .e1 => "e1" | .e1w => "e1w" | .e2 => "e2"
+  | .e3 => "e3"
+
+def statusOf (s : State) : String :=
+  if s.cpc = .idle then "idle" else if blocked s then "blocked" else "ready"
+
+def outcomeJson : Outcome → Json
+  | .returned n => Json.mkObj [("ret", Json.num n)]
+  | .sent => Json.str "sent"
+  | .timeoutErr => Json.mkObj [("exc", Json.str "TimeoutError")]
+  | .disconnectedErr => Json.mkObj [("exc", Json.str "DisconnectedError")]
+  | .indexErr => Json.mkObj [("exc", Json.str "IndexError")]
+
+def natsJson (l : List Nat) : Json := Json.arr (l.map (fun (n : Nat) => Json.num (n : Nat))).toArray
+
+def entryJson (e : Outcome × View) : Json :=
+  let v := e.2
+  Json.mkObj [("o", outcomeJson e.1), ("pc", Json.str (pcName v.pc)), ("buf", natsJson v.buf),
+    ("arrived", Json.num v.arrivedN), ("returned", Json.num v.returnedN),
+    ("signalled", Json.num v.signalled), ("seen", Json.num v.seen), ("ended", Json.bool v.ended),
+    ("cev", Json.bool v.cev), ("conn", Json.bool v.conn), ("woken", Json.bool v.woken)]
+
+def traceEntry (s : State) : Json :=
+  Json.arr #[Json.str (statusOf s), Json.str (pcName s.cpc), Json.num s.log.length,
+             Json.bool (s.ppc != .idle), Json.bool (s.kpc != .idle)]
+
+def handle (_ : Unit) (j : Json) : Except String (Unit × Json) := do
+  let variant ← (← j.getObjVal? "variant").getStr?
+  let toks ← (← j.getObjVal? "sched").getArr?
+  let sched ← toks.toList.mapM (fun t => do let s ← t.getStr?; choiceOfToken s)
+  let stepF : State → Choice → State ←
+    if variant == "threads" then pure Sio.Simple.step
+    else if variant == "asyncio" then pure Sio.Simple.Async.step
+    else throw s!"bad variant {variant}"
+  let (final, trace) := sched.foldl (fun (acc : State × List Json) c =>
+    let s' := stepF acc.1 c
+    (s', traceEntry s' :: acc.2)) (init, [])
+  pure ((), Json.mkObj [("trace", Json.arr trace.reverse.toArray),
+    ("log", Json.arr (final.log.map entryJson).toArray),
+    ("returned", natsJson final.returned), ("arrived", Json.num final.arrived.length),
+    ("buf", natsJson final.buf)])
+
+def step := handle
+
+def main : IO Unit := lineLoop () handle
 
 end Sio.KSimple
